@@ -49,7 +49,17 @@ type BodyReader struct {
 	Next  *Values
 	Fail  bool
 	Pages []string
+	// LoginOnly: the application's login values carry an identifier and a password and nothing
+	// else (they implement authboss.UserValuer but not RememberValuer etc.)
+	LoginOnly bool
 }
+
+// LoginValues is the minimal login body: authboss.UserValuer only.
+type LoginValues struct{ V *Values }
+
+func (l LoginValues) Validate() []error   { return l.V.Validate() }
+func (l LoginValues) GetPID() string      { return l.V.PID }
+func (l LoginValues) GetPassword() string { return l.V.Password }
 
 func (b *BodyReader) Read(page string, r *http.Request) (authboss.Validator, error) {
 	b.Pages = append(b.Pages, page)
@@ -58,6 +68,9 @@ func (b *BodyReader) Read(page string, r *http.Request) (authboss.Validator, err
 	}
 	if b.Next == nil {
 		return &Values{}, nil
+	}
+	if b.LoginOnly && page == "login" {
+		return LoginValues{b.Next}, nil
 	}
 	return b.Next, nil
 }
